@@ -432,7 +432,7 @@ package mcp
 //@   requires pageSize > 0 && pageSize < 4611686018427387904
 //@   rangeloop invariant @page-never-exceeds-its-size local(count) == len(local(features)) && local(count) <= pageSize
 //@   ensures @a-page-holds-at-most-page-size-items calls(setFunc) == 1 ==> len(callArg(setFunc, 1, 1)) <= pageSize
-//@   ensures @a-next-cursor-only-after-a-full-page calls(enc) <= 1 && (calls(enc) == 1 ==> len(callArg(setFunc, 1, 1)) == pageSize)
+//@   ensures @a-next-cursor-only-when-one-more-item-was-seen calls(enc) <= 1 && (calls(enc) == 1 ==> len(callArg(setFunc, 1, 1)) == pageSize && local(count) == pageSize + 1) && (result.1 == nil && calls(setFunc) == 1 && local(count) == pageSize + 1 ==> calls(enc) == 1)
 //@   ensures @the-next-cursor-names-the-last-item-of-the-page calls(enc) == 1 ==> calls(uid) == 1 && callArg(enc, 1, 0) == callResult(uid, 1, 0) && callArg(uid, 1, 0) == at(filled, callArg(setFunc, 1, 1)[pageSize - 1])
 //@   snapshot filled after call setFunc
 
